@@ -32,7 +32,9 @@ use vh_engine::{Check, Known, Section, Verdict};
 /// A case normally takes milliseconds. The machine may be heavily loaded, so a
 /// case counts as hung only if it does not complete within FIRST seconds *and*
 /// a second, fresh execution of the same case does not complete within SECOND
-/// seconds, both stuck inside the same cache call.
+/// seconds, both stuck inside the same cache call, and the kernel shows the
+/// second case thread blocked (state S, no CPU time over two seconds) rather
+/// than running or waiting for the disk.
 fn limits() -> (Duration, Duration) {
     let get = |name: &str, def: u64| std::env::var(name).ok().and_then(|s| s.parse::<u64>().ok()).unwrap_or(def);
     // the overrides exist for developing the watchdog path itself; the registered commands never set them
@@ -54,8 +56,9 @@ enum Attempt {
     Done(Verdict),
     Panic(vh_engine::util::PanicInfo),
     Setup(String),
-    /// no completion within the limit; what the case thread was doing
-    Hang(Progress),
+    /// no completion within the limit; what the case thread was doing, and whether the
+    /// kernel shows it blocked (see `thread_blocked`)
+    Hang(Progress, Option<bool>),
 }
 
 fn attempt(case: &Case, known: &Known, limit: Duration) -> Attempt {
@@ -78,9 +81,32 @@ fn attempt(case: &Case, known: &Known, limit: Duration) -> Attempt {
         Some(Err(p)) => Attempt::Panic(p),
         None => {
             let p = progress.lock().map(|g| g.clone()).unwrap_or_default();
-            Attempt::Hang(p)
+            let blocked = thread_blocked(p.tid);
+            Attempt::Hang(p, blocked)
         }
     }
+}
+
+/// Is the case thread blocked (sleeping, no CPU time consumed over two seconds)?
+/// `Some(false)`: it is running, waiting for the disk, or still making progress —
+/// a slow machine, not a call that never returns. `None`: /proc is not readable.
+fn thread_blocked(tid: i32) -> Option<bool> {
+    fn sample(tid: i32) -> Option<(char, u64)> {
+        let txt = std::fs::read_to_string(format!("/proc/self/task/{tid}/stat")).ok()?;
+        let rest = &txt[txt.rfind(')')? + 1..];
+        let f: Vec<&str> = rest.split_whitespace().collect();
+        // after the command name: state, then utime / stime are fields 12 and 13 of the remainder
+        let state = f.first()?.chars().next()?;
+        let ticks = f.get(11)?.parse::<u64>().ok()? + f.get(12)?.parse::<u64>().ok()?;
+        Some((state, ticks))
+    }
+    if tid <= 0 {
+        return None;
+    }
+    let a = sample(tid)?;
+    std::thread::sleep(Duration::from_secs(2));
+    let b = sample(tid)?;
+    Some(a.0 == 'S' && b.0 == 'S' && a.1 == b.1)
 }
 
 fn is_cache_call(what: &str) -> bool {
@@ -112,8 +138,8 @@ fn supervised(case: &Case, known: &Known) -> Verdict {
     let first = match attempt(case, known, t1) {
         Attempt::Done(v) => return v,
         Attempt::Panic(p) => return panic_verdict(p),
-        Attempt::Setup(e) => return Verdict::fail("C12:harness:cannot-construct-cache", e),
-        Attempt::Hang(p) => p,
+        Attempt::Setup(e) => return infra(e),
+        Attempt::Hang(p, _) => p,
     };
     if !first.started {
         return infra(format!("case thread did not start within {t1:?}"));
@@ -126,7 +152,10 @@ fn supervised(case: &Case, known: &Known) -> Verdict {
         }
         Attempt::Panic(p) => return panic_verdict(p),
         Attempt::Setup(e) => return infra(format!("re-run after a timeout could not be set up: {e}")),
-        Attempt::Hang(p) => p,
+        Attempt::Hang(p, Some(false)) => {
+            return infra(format!("case did not complete within {t1:?} and {t2:?}, but its thread is running or waiting for the disk (op#{} {}): machine too slow", p.step, p.what));
+        }
+        Attempt::Hang(p, _) => p,
     };
     if !second.started || !is_cache_call(second.what) || !is_cache_call(first.what) || first.step != second.step || first.what != second.what {
         return infra(format!(
@@ -357,7 +386,7 @@ fn main() {
     ck.assume("a plain (unvalidated) read may return the bytes a fault planted in the disk file: nothing in the cache can tell them from the stored value; only hooks + content key are required to reject them");
     ck.assume("get_from_layer answers for one layer only: an older value held by that layer is not a stale answer of the cache (the latest-value clause is applied to get, batch_get and get_with_validation)");
     ck.assume("a put / remove / clear / promote that returns Err ends the history without a verdict (class abandoned-on-put-error); a get that returns Err is a violation, except get_from_layer / promote on the disk layer once after its file was deleted");
-    ck.assume("a case counts as hung only if two fresh executions both fail to complete (60 s, then 180 s) inside the same cache call; one slow execution is re-run and judged normally");
+    ck.assume("a case counts as hung only if two fresh executions both fail to complete (60 s, then 180 s) inside the same cache call and /proc shows the second case thread sleeping without consuming CPU time; one slow execution is re-run and judged normally, anything else is reported as infrastructure trouble (exit 2)");
     ck.assume("the background cleanup / sync tasks of the layers (interval one year) are never polled: current-thread runtime, no operation yields");
 
     // In --replay mode nothing is tolerated inside a history: the first finding ends the case
